@@ -186,6 +186,9 @@ class World:
             return self.type_of_hint(h.__forward_arg__)
         origin = typing.get_origin(h)
         args = typing.get_args(h)
+        import collections.abc as _abc
+        if origin is _abc.Callable or h is typing.Callable:
+            return TFunc()
         if origin is typing.Union:
             non = [a for a in args if a is not type(None)]
             if len(non) == 1 and len(args) == 2:
